@@ -66,12 +66,31 @@ func rsaIdx(key string) int { return map[string]int{"k1": 0, "k2": 1}[key] }
 // create builds a request of type t pinned to issuer key `key`.
 func (s *issuerSet) create(t, n int, key string, challenge []byte, nonces [][]byte, origin string, clientName string) *outReq {
 	o := &outReq{t: t, n: n, nonces: nonces, challenge: challenge}
+	// The client is handed private copies of every argument, and the copies
+	// are overwritten as soon as the call returns: a request state that kept
+	// an alias of its caller's buffers instead of its own bytes shows up as a
+	// token with the wrong nonce / context / key id.
+	challenge = append([]byte{}, challenge...)
+	cn := make([][]byte, len(nonces))
+	for i := range nonces {
+		cn[i] = append([]byte{}, nonces[i]...)
+	}
+	nonces = cn
+	var keyIDArg []byte
+	defer func() {
+		poison(challenge)
+		for _, x := range nonces {
+			poison(x)
+		}
+		poison(keyIDArg)
+	}()
 	switch t {
 	case 1:
 		k := p384Key(s.seed, key)
 		iss := type1.NewBasicPrivateIssuer(k)
 		o.pubBytes, _ = iss.TokenKey().MarshalBinary()
-		st, err := type1.NewBasicPrivateClient().CreateTokenRequest(challenge, nonces[0], iss.TokenKeyID(), iss.TokenKey())
+		keyIDArg = iss.TokenKeyID()
+		st, err := type1.NewBasicPrivateClient().CreateTokenRequest(challenge, nonces[0], keyIDArg, iss.TokenKey())
 		o.createErr = err
 		if err == nil {
 			o.reqBytes = append([]byte{}, st.Request().Marshal()...)
@@ -91,7 +110,8 @@ func (s *issuerSet) create(t, n int, key string, challenge []byte, nonces [][]by
 		k := ristrettoKey(s.seed, key)
 		iss := type5.NewBatchedPrivateIssuer(k)
 		o.pubBytes, _ = iss.TokenKey().MarshalBinary()
-		st, err := type5.NewBatchedPrivateClient().CreateTokenRequest(challenge, nonces, iss.TokenKeyID(), iss.TokenKey())
+		keyIDArg = iss.TokenKeyID()
+		st, err := type5.NewBatchedPrivateClient().CreateTokenRequest(challenge, nonces, keyIDArg, iss.TokenKey())
 		o.createErr = err
 		if err == nil {
 			o.reqBytes = append([]byte{}, st.Request().Marshal()...)
@@ -124,8 +144,10 @@ func (s *issuerSet) create(t, n int, key string, challenge []byte, nonces [][]by
 		w := s.world(key, origin)
 		o.pubBytes, _ = util.MarshalTokenKeyPSSOID(w.issuer.TokenKey())
 		cl := type3.NewRateLimitedClientFromSecret(p384Scalar(s.seed, "iss-client-"+clientName))
-		st, err := cl.CreateTokenRequest(challenge, nonces[0], p384Scalar(s.seed, "iss-blind-"+clientName+fmt.Sprint(len(challenge))),
-			w.issuer.TokenKeyID(), w.issuer.TokenKey(), origin, w.issuer.NameKey())
+		keyIDArg = w.issuer.TokenKeyID()
+		blindArg := p384Scalar(s.seed, "iss-blind-"+clientName+fmt.Sprint(len(challenge)))
+		st, err := cl.CreateTokenRequest(challenge, nonces[0], blindArg, keyIDArg, w.issuer.TokenKey(), origin, w.issuer.NameKey())
+		poison(blindArg)
 		o.createErr = err
 		if err == nil {
 			o.reqBytes = append([]byte{}, st.Request().Marshal()...)
@@ -478,7 +500,8 @@ func execRLEval(c *ctx, in ev) ev {
 			enc[f[0]+bit/8] ^= 1 << uint(bit%8)
 		case "Unregistered":
 			name := map[string]string{"last-byte": "registered.examplf", "prefix": "registered.exampl", "suffix": "registered.example.", "inner-nul": "registered\x00example",
-				"case": "Registered.example", "empty": "", "long": strings.Repeat("registered.example", 9)}[cls["variant"].(string)]
+				"case": "Registered.example", "empty": "", "long": strings.Repeat("registered.example", 9),
+				"nul-suffix": "registered.example\x00.attacker.example", "nul-suffix-short": "registered.example\x00a", "nul-prefix": "\x00registered.example"}[cls["variant"].(string)]
 			enc = remarshal(mk(w, name))
 		case "ForeignIssuer": // sealed to another issuer's name key
 			enc = remarshal(mk(other, origin))
@@ -938,7 +961,7 @@ func genIssuance(c *ctx, emit func(ev)) {
 			for _, k := range []int{0, 1, 100, 256, 257, 258, 300} {
 				rl(ev{"kind": "BadInner", "k": k})
 			}
-			for _, v := range []string{"last-byte", "prefix", "suffix", "inner-nul", "case", "empty", "long"} {
+			for _, v := range []string{"last-byte", "prefix", "suffix", "inner-nul", "case", "empty", "long", "nul-suffix", "nul-suffix-short", "nul-prefix"} {
 				rl(ev{"kind": "Unregistered", "variant": v})
 			}
 		}
@@ -995,4 +1018,11 @@ func permutations(n int) [][]int {
 	}
 	rec(nil, make([]bool, n+1))
 	return out
+}
+
+// poison overwrites a buffer the library was given (after the call returned).
+func poison(b []byte) {
+	for i := range b {
+		b[i] ^= 0xa5
+	}
 }
